@@ -131,10 +131,11 @@ func c35Live(t *testing.T, name string, restricted bool) {
 		levels := make([]int, n)
 		for i := range batch {
 			x := v35.NewSrc(t, fmt.Sprintf("i%d", i))
+			x.Avoid = kit.Known
 			g := &c35G{s: srv, x: x}
 			batch[i] = c35Listeners[c35PickListener(x, only)].gen(g)
 			levels[i] = x.Level
-			for _, k := range c35RepairKnown(batch[i], kit.Known) {
+			for _, k := range append(c35RepairKnown(batch[i], kit.Known), x.Excluded...) {
 				rec.Excluded(k)
 			}
 		}
